@@ -13,7 +13,7 @@
    and by the correspondence of the extracted writer model with the library.  Proved below: the
    statements do NOT hold for the pinned tree (five witnesses, each a defect with a patch or a
    finding). *)
-From CAres.Wire Require Import Cursor Name Record Parse Escape Escape_proofs RefDecode Name_ref Write Roundtrip Write_proofs Write_name Write_name2 Write_pos.
+From CAres.Wire Require Import Cursor Name Record Parse Escape Escape_proofs RefDecode Name_ref Write Roundtrip Write_proofs Write_name Write_host Write_name2 Write_pos.
 From CAres.Gen Require Import Consts.
 Local Open Scope Z_scope.
 
@@ -62,13 +62,15 @@ Print Assumptions C03_frame_position_independent.
    ares_dns_name_write appends (all labels + 0, or some labels + a pointer to the longest registered
    suffix, or just a pointer) keeps the invariant, and parsing at the position of the name in the
    message - whatever follows - returns the same name and the position right behind it.
-   _partial: names in canonical presentation form (escape_name of valid labels), written without
-   hostname validation (RDATA names); owner/question names (validate_hostname = TRUE) and
-   non-canonical text (trailing dot, \DDD for printable octets) are not covered *)
-Theorem C03_name_roundtrip_partial : forall b pre out ol labels,
+   Both kinds of names: RDATA names (validate_hostname = FALSE, any octets) and owner / question
+   names (validate_hostname = TRUE, all octets hostname characters).
+   _partial: names in canonical presentation form (escape_name of valid labels); non-canonical text
+   (trailing dot, \DDD for printable octets) is not covered *)
+Theorem C03_name_roundtrip_partial : forall (validate_hostname : bool) b pre out ol labels,
   wb_wf b -> w_live b = pre ++ out -> ol_ok out ol -> bytes_ok out ->
   Forall label_ok labels -> wire_len labels <= 256 -> slen (escape_name labels) < 512 ->
-  forall b' nl', name_write wfixed (Z.of_nat (length pre)) b (Some ol) false (escape_name labels) = Ok (b', nl') ->
+  (validate_hostname = true -> Forall host_label labels) ->
+  forall b' nl', name_write wfixed (Z.of_nat (length pre)) b (Some ol) validate_hostname (escape_name labels) = Ok (b', nl') ->
   exists more ol', nl' = Some ol' /\ wb_wf b' /\ w_live b' = pre ++ out ++ more /\ ol_ok (out ++ more) ol' /\
     bytes_ok (out ++ more) /\
     forall post fuel,
